@@ -23,7 +23,7 @@ func init() {
 	register(&PropDef{
 		ID:    "C08",
 		Pkgs:  []string{tr},
-		Claim: "Decides: (1) as a closed proof obligation set, the four grpc-message percent-coding functions cannot panic on any input; (2) structurally: the encoder's fast path hands the message to the escaping encoder exactly when a byte is below space, above tilde or is '%'; the escaping encoder writes a byte verbatim only when it is a single-byte rune in the printable range and not '%', escapes every other byte, and consumes the input by exactly the decoded rune size; the decoder consumes two extra bytes only after a successful hex parse of the two bytes following '%'. decode(encode(s)) = s over all strings is not decided.",
+		Claim: "Decides: (1) as a closed proof obligation set, the four grpc-message percent-coding functions cannot panic on any input; (2) structurally: the encoder's fast path hands the message to the escaping encoder exactly when a byte is below space, above tilde or is '%'; the escaping encoder writes a byte verbatim only when it is a single-byte rune in the printable range and not '%', escapes every other byte, and consumes the input by exactly the decoded rune size; the decoder consumes two extra bytes only after a successful hex parse of the two bytes following '%'. decode(encode(s)) = s over all strings is not decided. The fast-path wrappers return the empty string only for an empty message, the message itself only after the whole scan, and otherwise the escaping coder applied to that message; the per-rune byte loop is never left early.",
 		NotDecided:  []string{"decode(encode(s)) == s over all UTF-8 strings, and the replacement-character behaviour for invalid UTF-8 (value property)"},
 		Assumptions: []string{"utf8.DecodeRuneInString(s) returns 0 <= size <= len(s) (documented contract)", "strings.Builder methods and fmt.Fprintf to a Builder never panic"},
 		Technique:   "static analysis: panic-source enumeration discharged by the compiler's prove pass, library contracts and difference-constraint guards; dominating guards on go/ssa branch facts",
